@@ -43,7 +43,7 @@ class ReplayDiverged(Exception):
 class SimThread:
     __slots__ = ('index', 'thread', 'gate', 'state', 'join_target', 'deadline', 'wake_at', 'pending_exc',
                  'pending_delay', 'events', 'ident', 'budget', 'priority', 'frozen_until', 'blocked_on',
-                 'async_landed', 'name', 'op_born')
+                 'async_landed', 'name', 'op_born', 'zombie')
 
     def __init__(self, index, thread):
         self.index = index
@@ -65,6 +65,7 @@ class SimThread:
         self.async_landed = []
         self.name = 'T%d' % index
         self.op_born = None
+        self.zombie = False
 
 
 class Scheduler:
@@ -95,6 +96,8 @@ class Scheduler:
         # pct
         self.change_points = set(self.params.get('change_points', ()))
         self.stall = self.params.get('stall')          # (thread_index, from_event, to_event)
+        self.fair = self.params.get('fair', 400)
+        self.starve = 0
 
     # ------------------------------------------------------------------ lifecycle
     def activate(self):
@@ -113,16 +116,19 @@ class Scheduler:
         threading.Lock = _sim_lock_factory
         threading.RLock = _sim_rlock_factory
         import pedal.sandbox.timeout as T
+        self._T = T
         self._saved_ctypes = T.ctypes
         T.ctypes = FakeCtypes(self)
+        self._saved_threading = T.threading
+        T.threading = ThreadingProxy(self)
         world.SLEEP_HOOK[0] = self.sleep
         MONITOR.yield_hook = self.yield_point
 
     def deactivate(self):
         MONITOR.yield_hook = None
         world.SLEEP_HOOK[0] = None
-        import pedal.sandbox.timeout as T
-        T.ctypes = self._saved_ctypes
+        self._T.ctypes = self._saved_ctypes
+        self._T.threading = self._saved_threading
         threading.Thread.start = _orig_start
         threading.Thread.join = _orig_join
         threading.Thread.is_alive = _orig_is_alive
@@ -213,6 +219,21 @@ class Scheduler:
         if len(runnable) == 1:
             return runnable[0]
         n = self.nevents
+        # fairness (assumed only so that the grader's step count is meaningful): the grader is never
+        # starved for more than ``fair`` consecutive events of other threads
+        g = self.threads[0]
+        if g in runnable:
+            if self.starve >= self.fair:
+                self.starve = 0
+                return g
+        chosen = self._pick_policy(me, runnable, n)
+        if g in runnable and chosen is not g:
+            self.starve += 1
+        else:
+            self.starve = 0
+        return chosen
+
+    def _pick_policy(self, me, runnable, n):
         if self.forced:
             want = self.forced.get(n)
             if want is not None:
@@ -348,9 +369,16 @@ class Scheduler:
         me.state = 'join_wait'
         me.join_target = target
         me.deadline = None if timeout is None else world.CLOCK.now + max(0.0, timeout)
+        if target.zombie and timeout is None:
+            self.probe['untimed_join_on_zombie'] = self.probe.get('untimed_join_on_zombie', 0) + 1
         self.park(me)
         if target.state != 'done':
             self.timer_fired += 1
+            target.zombie = True
+            self.probe['timer_at'] = (me.events, world.CLOCK.now)
+            late = self.params.get('zombie_late')
+            if late:
+                target.frozen_until = self.nevents + late
 
     def sleep(self, seconds):
         me = self.current
@@ -410,6 +438,7 @@ def _sim_start(self):
             sched.thread_end(st)
     self.run = run_wrapper
     _orig_start(self)
+    st.ident = self.ident      # a started thread has an id (and is in threading._active) even before it first runs
 
 
 def _sim_join(self, timeout=None):
@@ -518,3 +547,19 @@ class FakeCtypes:
     @staticmethod
     def py_object(x):
         return x
+
+
+class ThreadingProxy:
+    """Stands in for the ``threading`` module inside pedal.sandbox.timeout: everything is the real
+    module except ``_active``, which is derived from the scheduler's state.  (The real table is
+    updated by a finishing thread's own bootstrap code some time after the simulation regards the
+    thread as done -- an uncontrolled race that would leak real nondeterminism into the run.)"""
+
+    def __init__(self, sched):
+        object.__setattr__(self, '_sched', sched)
+
+    def __getattr__(self, name):
+        if name == '_active':
+            sched = object.__getattribute__(self, '_sched')
+            return {st.ident: st.thread for st in sched.threads if st.state != 'done' and st.ident is not None}
+        return getattr(threading, name)
